@@ -38,6 +38,9 @@ func genC13(seed uint64, tier string) *Plan {
 	if r.chance(0.3) {
 		p.Knobs["behaviour_weight"] = -1
 	}
+	if r.chance(0.4) {
+		p.Knobs["idw_ttl"] = float64([]int{0, 1, 2}[r.intn(3)]) // heartbeats an IDONTWANT is remembered (0 is accepted)
+	}
 	if r.chance(0.3) {
 		// the node's attempts to open a stream to a peer fail now and then (first opens and re-opens
 		// after a stream loss alike)
@@ -435,6 +438,12 @@ func leakScan(w *nodeWorld, pid peer.ID) []leak {
 		}
 		if _, ok := gs.peerhave[pid]; ok {
 			add("router.peerhave", "")
+		}
+		for mid, m := range gs.mcache.peertx {
+			if _, ok := m[pid]; ok {
+				_, cached := gs.mcache.msgs[mid]
+				add("router.mcache.peertx", fmt.Sprintf("message %x, still cached: %v", shortHash([]byte(mid)), cached))
+			}
 		}
 		if _, ok := gs.iasked[pid]; ok {
 			add("router.iasked", "")
